@@ -99,7 +99,8 @@ func (w *World) pollListeners(now time.Duration) {
 			c.isn = ls.L.ISN + uint32(len(ls.Conns))*step
 			ls.Conns = append(ls.Conns, c)
 			w.stat("sack.accepted")
-			w.Log.add(now, "lis"+strconv.Itoa(ls.Idx+1), "accept", w.symPort(c.remote.Port()))
+			w.nConns++
+			w.Log.add(now, "lis"+strconv.Itoa(ls.Idx+1), "accept", "L"+strconv.Itoa(w.nConns))
 			if ls.L.NoSynAck {
 				w.stat("fault.noSynAck")
 				continue
